@@ -114,6 +114,79 @@ def removedAnyOK (t : T) (s : List String) (u : T) : Bool :=
   canonSet u.usplitSet == restrictSplits t.tipNames keep t.usplitSet &&
   survivorsDataOK t u
 
+/-! ### When may outgroup rooting refuse?
+
+The statement: an outgroup that is one side of a split is rooted on (clause 2); "an outgroup that is
+not monophyletic is refused in strict mode and otherwise ends up inside one root clade".  So a
+refusal is allowed exactly in the cases listed by `refusalCause`; any other refusal contradicts the
+statement. -/
+
+/-- the reference tip of the code (`RerootOutGroup` roots the tree temporarily there): the first tip, in
+    the order of `Tips()` of the unrooted tree, that is not in the outgroup -/
+def refTip (t : T) (s : List String) : Option String :=
+  let t1 := unroot t
+  if t1.kids.length == 1 && !s.contains t1.name then some t1.name
+  else t1.leaves.find? (fun x => !s.contains x)
+
+/-- the clades of the tree seen from the tip `r`: for every branch the side without `r` (sorted, without
+    repetition).  Two of them are nested or disjoint. -/
+def cladesFrom (t : T) (r : String) : List (List String) :=
+  let all := t.tipNames
+  ((t.splits.map fun sp => sortS (if sp.below.contains r then all.filter (fun x => !sp.below.contains x) else sp.below)).filter
+    (fun X => !X.isEmpty)).eraseDups
+
+/-- the clade of the common ancestor of the outgroup, seen from the reference tip: the smallest clade
+    containing the outgroup (the clades containing it are nested) -/
+def ancestorClade (t : T) (s : List String) : Option (List String) :=
+  match refTip t s with
+  | none => none
+  | some r =>
+    ((cladesFrom t r).filter fun X => s.all X.contains).foldl
+      (fun best X => match best with
+        | none => some X
+        | some b => if X.length < b.length then some X else some b) none
+
+/-- the common ancestor of the outgroup (seen from the reference tip) is a multifurcation: besides the
+    branches leading to outgroup tips and the one leading to the reference tip it has a further branch â€”
+    a clade `Y` directly below the ancestor clade without any outgroup tip.  Never the case when the
+    outgroup is a side itself (then the ancestor clade is the outgroup). -/
+def ancestorAmbiguous (t : T) (S : List String) : Bool :=
+  let s := outTips t S
+  match refTip t s, ancestorClade t s with
+  | some r, some M =>
+    let cl := cladesFrom t r
+    cl.any fun Y => decide (Y.length < M.length) && Y.all M.contains && !(Y.any s.contains) &&
+      !(cl.any fun Z => decide (Y.length < Z.length) && decide (Z.length < M.length) && Y.all Z.contains && Z.all M.contains)
+  | _, _ => false
+
+/-- the names of the nodes of the unrooted tree, without the empty ones, contain a repetition
+    (`Reroot` needs the node index, which refuses such trees) -/
+def dupNodeNames (t : T) : Bool :=
+  let names := (unroot t).nodeNames.filter (Â· != "")
+  names.eraseDups.length != names.length
+
+/-- Why the statement lets `RerootOutGroup(remove, strict, S)` refuse, `none` when it does not:
+    * `none-or-all`     none of the names is a tip, or every tip is named (no root position exists);
+    * `dupnames`        two nodes carry the same non-empty name (no node index);
+    * `strict-nonside`  strict mode and the outgroup is not one side of a split;
+    * `one-tip-left`    the outgroup is to be removed and fewer than two tips would remain (the clade of the
+                        common ancestor of the outgroup, seen from the first tip outside it, is removed);
+    * `single-child`    the outgroup is to be removed and some node has exactly two neighbours (what remains
+                        may then hang on such a node, which cannot be the new root).
+    In particular: an outgroup that is a side with at least two tips on the other side, and â€” in non-strict
+    mode â€” ANY outgroup, must not be refused. -/
+def refusalCause (t : T) (rm strict : Bool) (S : List String) : Option String :=
+  let s := outTips t S
+  if s.isEmpty || t.tipNames.all s.contains then some "none-or-all"
+  else if dupNodeNames t then some "dupnames"
+  else if strict && !isSide t S then some "strict-nonside"
+  else if rm && !t.noSingle then some "single-child"
+  else if rm then
+    (match ancestorClade t s with
+     | some m => if t.tipNames.length - m.length < 2 && !ancestorAmbiguous t S then some "one-tip-left" else none
+     | none => none)
+  else none
+
 /-- largest tip-to-tip distance -/
 def diam (t : T) : Rat :=
   t.tipNames.foldl (fun m a => t.tipNames.foldl (fun m b => if a != b && t.dist a b > m then t.dist a b else m) m) 0
@@ -137,6 +210,10 @@ def supsOK (t : T) : Bool := t.splits.all fun s => s.e.sup == NIL || decide (0 â
 /-- the printing by which `usplitsAll` is sorted distinguishes the sides present (hypothesis of the
     literal-equality theorems; fails only for names containing ", ") -/
 def keysOK (t : T) : Bool := decide ((t.usplitsAll.map fun s => toString s.side).Nodup)
+
+/-- tip names the printing of a side can delimit: non-empty and free of ','.  Implies `keysOK`
+    (`keysOK_of_plainNames`); evaluated by the driver (tag hyp-plainnames). -/
+def plainNames (t : T) : Bool := t.tipNames.all fun x => x != "" && !x.toList.contains ','
 
 /-- no two branches of the unrooted tree carry the same split (true when no node has exactly two
     neighbours; hypothesis of the link between `outgroup_clade` and the oracle `cladeOK`) -/
